@@ -130,4 +130,18 @@ PROPS = {
                                   "the float rounding analysis of the filter's error bound is not a theorem; the exact oracle decides it per explored triple"],
         assumptions=["ordinates zero or of magnitude within [1e-100, 1e100]"],
     ),
+    "C11": dict(
+        modules=["GeomVerif.Properties.C11"],
+        n_quick=12000, n_thorough=150000, thorough_seeds=3, min_theorems=5,
+        rule="every closed triangle on the 4x4 integer grid x every grid point (65536 cases, exhaustive, each run; the thorough tier adds every "
+             "closed quadrilateral x every grid point, 1048576 cases) + sampled quadrilaterals + random closed rings of 3..11 vertices (self-"
+             "intersecting, horizontal edges, repeated vertices, extra ordinates with arbitrary bits, stride 2..4) on grids 4/6/8/16/2^26 with query "
+             "points biased to vertices, points level with a vertex and edge midpoints; a quarter of the cases are IsOnLine on open polylines, half "
+             "of those mapped exactly to moderate-magnitude floats. Oracle: exact rational even-odd rule / point-on-segment. non-trivial = all",
+        nontrivial=lambda op, inp: True,
+        trusted_base=TB_COMMON + ["modelled: robustdeterminate.SignOfDet2x2 (bit-exact Float mirror), raycrossing counter, robust PointIntersectsLine "
+                                  "(bounding box + exact orientation from C10)",
+                                  "the Euclidean main loop of SignOfDet2x2 and the fold over edges are validated by the exact oracle, not yet by a theorem"],
+        assumptions=["ordinates on integer grids up to 2^26 (differences exact) or exactly representable dyadic maps of them; no NaN"],
+    ),
 }
